@@ -1,10 +1,10 @@
 from props import tu, run, FCO, NONULL
 
-_PARTS = 8
-# cases per part (same enumeration in both tiers): static refs u8/u16 (94, 48), u32/u64 (73), dynamic refs (34),
-# bit-aligned pixels (56, 40), packed pixels (6), iterators (288); parts 2, 3, 5 include the wide (20..32-bit) channels
-_CASES = [94, 48, 81, 38, 56, 40, 6, 288]
-_SHARDS = [16, 16, 8, 16, 8, 16, 6, 8]
+_PARTS = 10
+# cases per part (same enumeration in both tiers): static refs u8 (36), u16 (58, 48), u32 (54), u64 (27), dynamic refs (38),
+# bit-aligned pixels (56, 40), packed pixels (6), iterators (288); parts 3, 4, 5, 7 include the wide (20..32-bit) channels
+_CASES = [36, 58, 48, 54, 27, 38, 56, 40, 6, 288]
+_SHARDS = [8, 16, 16, 8, 8, 16, 8, 16, 6, 8]
 
 CFG = dict(
     level="exploration",
